@@ -209,3 +209,17 @@ class SphinxBuild:
 
     def __exit__(self, *a):
         self.close()
+
+
+def parse_staged(text, on_parsed, source_path="doc.md", **kw):
+    """Full pipeline; ``on_parsed(document)`` is called directly after Parser.parse (before any transform)."""
+    from myst_parser.parsers.docutils_ import Parser
+
+    class StagedParser(Parser):
+        def parse(self, inputstring, document):
+            super().parse(inputstring, document)
+            on_parsed(document)
+
+    ws = io.StringIO()
+    dt = publish_doctree(text, parser=StagedParser(), source_path=source_path, settings_overrides=overrides(ws, **kw))
+    return dt, ws.getvalue()
